@@ -216,7 +216,7 @@ def r33_5(ctx, facts):
                         pieces = decode_fmt_template(st[2][1][2])
                     except Exception:
                         continue
-                    if len(pieces) > 1 and pieces[0] == ("lit", "r#") and pieces[1] == ("arg",):
+                    if len(pieces) > 1 and pieces[0] == ("lit", "r#") and pieces[1][0] == "arg":
                         tmpl = st[3]
             if tmpl is None:
                 continue
